@@ -269,6 +269,12 @@ const roleText2 = "role r\n  :noop true\n  spotlight true\n  signal s scalar at 
 // observed.  The last element of tr is observed in the round where a drops
 // (a = 1), which closes the period.
 func runSignalActivated(modality string, tr []bool) periodCase {
+	return runSignalActivatedEnd(modality, tr, false)
+}
+
+// with openAtEnd the activation signal never drops: the period is still open
+// when the play ends and the final round (which samples nothing) closes it.
+func runSignalActivatedEnd(modality string, tr []bool, openAtEnd bool) periodCase {
 	cfg := roleText2 + "audience\n  al audits only while [x a] > 3\n  al expects " + modality + ": [x s] > 3\nend\n"
 	val := func(b bool) float64 {
 		if b {
@@ -281,7 +287,7 @@ func runSignalActivated(modality string, tr []bool) periodCase {
 	for i, b := range tr {
 		ts += 0.5
 		a := 5.0
-		if i == len(tr)-1 {
+		if i == len(tr)-1 && !openAtEnd {
 			a = 1
 		}
 		evs = append(evs, cmd.VerifEvent{Kind: "sig", Ts: ts, Values: []cmd.VerifValue{
@@ -299,12 +305,12 @@ func runSignalActivated(modality string, tr []bool) periodCase {
 	evs = append(evs, cmd.VerifEvent{Kind: "final", Ts: ts + 1.2871})
 	res := cmd.VerifAuditLoop(cfg, evs, false)
 	obs := tr
-	if len(tr) == 1 {
+	if len(tr) == 1 && !openAtEnd {
 		// a = 1 from the start: al never audits
 		obs = nil
 	}
 	pc := periodCase{Name: modality, Trace: obs, Codes: reportsOf(&res, "al"), Panic: problem(&res, false)}
-	if len(tr) == 1 && len(pc.Codes) == 0 && pc.Panic == "" {
+	if len(tr) == 1 && !openAtEnd && len(pc.Codes) == 0 && pc.Panic == "" {
 		pc.Panic = "skip"
 	}
 	return pc
@@ -369,6 +375,23 @@ func runSlowCollector(modality string) slowCase {
 		c.Problem = prob
 	}
 	return c
+}
+
+// runNonBoolean: a predicate whose value is not a boolean (`[x s]`, a number)
+// does not hold: every round is an observation of false (evalBool).
+func runNonBoolean(modality string, n int) period3Case {
+	cfg := roleText + "audience\n  al audits throughout\n  al expects " + modality + ": [x s]\nend\n"
+	var evs []cmd.VerifEvent
+	ts := 0.0
+	var tr []int
+	for i := 0; i < n; i++ {
+		ts += 0.5
+		evs = append(evs, sample(ts, i%2 == 0))
+		tr = append(tr, 0)
+	}
+	evs = append(evs, cmd.VerifEvent{Kind: "final", Ts: ts + 1.2871})
+	res := cmd.VerifAuditLoop(cfg, evs, false)
+	return period3Case{Name: modality, Trace: tr, Codes: reportsOf(&res, "al"), Panic: problem(&res, false)}
 }
 
 type period3Case struct {
@@ -526,6 +549,9 @@ func main() {
 				if pc := runSignalActivated(n, tr); pc.Panic != "skip" {
 					audPeriods = append(audPeriods, pc)
 				}
+				if l <= 3 {
+					audPeriods = append(audPeriods, runSignalActivatedEnd(n, tr, true))
+				}
 			}
 		}
 		// predicates over t: the last observation is made in the final round
@@ -564,6 +590,7 @@ func main() {
 				}
 			}
 		}
+		p3 = append(p3, runNonBoolean(n, 1), runNonBoolean(n, 3))
 	}
 
 	// a slow collector must not lose reports
